@@ -149,3 +149,28 @@ def check_no_unvetted_override(ctx: Ctx, rule: str, printer: str, skip=()):
             ctx.fail(rule, f"{printer}-printer::{name}::unvetted-override", f"{printer} printer: {name} is now printed by {r}, an override that was not there when the printer was vetted; what it emits for {name} is not known to preserve the value (e.g. fmod instead of %, x*x without parentheses)", r.func.where())
         elif r.is_gotranx:
             ctx.ok(rule, f"{printer}-printer::{name}::override", f"{r} (read and checked structurally)", r.func.where(), nontrivial=False)
+
+
+def check_zip_truncation(ctx: Ctx, rule: str, printer: str):
+    """zip() stops at the shorter argument.  Zipping two *different* slices of one operand list (a[::2] with a[1::2],
+    a[:-1] with a[1:] is fine: equal lengths) silently drops the unpaired operand."""
+    M = model(ctx)
+    seen = 0
+    for g in M.chains[printer]:
+        for mname, f in g.methods.items():
+            if not mname.startswith("_print"):
+                continue
+            for c in ast.walk(f.node):
+                if not (isinstance(c, ast.Call) and isinstance(c.func, ast.Name) and c.func.id == "zip" and len(c.args) >= 2):
+                    continue
+                seen += 1
+                sl = [a for a in c.args if isinstance(a, ast.Subscript) and isinstance(a.slice, ast.Slice)]
+                bad = False
+                if len(sl) == len(c.args) and len({norm(a.value) for a in sl}) == 1:
+                    steps = {norm(a.slice.step) if a.slice.step is not None else "1" for a in sl}
+                    if steps != {"1"} and len({norm(a.slice) for a in sl}) > 1:
+                        bad = True  # strided slices with different offsets: lengths differ for odd lengths
+                strict = any(k.arg == "strict" and isinstance(k.value, ast.Constant) and k.value.value is True for k in c.keywords)
+                key = f"{printer}-printer::{g.name}.{mname}::zip::{norm(c)[:60]}"
+                ctx.check(not bad or strict, rule, key, "zip over sequences of equal length", f"{g.name}.{mname}: `{norm(c)}` pairs strided slices of one operand list; zip stops at the shorter one, so the unpaired last operand is silently dropped from the emitted expression", f.where(c))
+    return seen
